@@ -779,6 +779,14 @@ func chunkSegment(init *mp4.InitSegment, seg *mp4.MediaSegment, segMeta segMeta,
 	chunks := make([]chunk, 0, nrChunks)
 	trackID := init.Moov.Trak.Tkhd.TrackID
 	ch := createChunk(seg.Styp, trackID, segMeta.newNr)
+	// Event messages added to the segment (SCTE-35) are carried by the first chunk.
+	for _, f := range seg.Fragments {
+		for _, c := range f.Children { // Fragment.AddEmsg puts the box into Children only
+			if emsg, ok := c.(*mp4.EmsgBox); ok {
+				ch.frag.AddEmsg(emsg)
+			}
+		}
+	}
 	chunkNr := 1
 	var accChunkDur uint32 = 0
 	var totalDur = 0
